@@ -72,6 +72,11 @@ func KeyUnwrap(block cipher.Block, ciphertext []byte) ([]byte, error) {
 		return nil, errors.New("square/go-jose: key wrap input must be 8 byte blocks")
 	}
 
+	// The wrapped key always has the 8 byte integrity check value.
+	if len(ciphertext) < 8 {
+		return nil, errors.New("square/go-jose: key wrap input is too short")
+	}
+
 	n := (len(ciphertext) / 8) - 1
 	r := make([][]byte, n)
 
